@@ -13,6 +13,7 @@ import (
 
 	"github.com/bluenviron/gortsplib/v5/pkg/description"
 	"github.com/bluenviron/gortsplib/v5/pkg/format"
+	"github.com/pion/rtp"
 
 	"github.com/bluenviron/mediamtx/internal/conf"
 	"github.com/bluenviron/mediamtx/internal/logger"
@@ -57,6 +58,7 @@ type verifC17Reader struct {
 }
 
 type verifC17State struct {
+	formats []format.Format // format index -> format (medias[i] is the media that holds it)
 	share   bool
 	cap, nf int
 	strm    *Stream
@@ -505,8 +507,207 @@ func verifC17AAExec(f []string) string {
 	return "bad-op"
 }
 
+// ---- RTP publishers on an always-available H264 stream, replaced in the middle of an access unit ----
+//
+// Every packet is a single-NAL-unit packet [0x41 0xA5 hi lo]; without the marker the depacketiser keeps it. A new
+// publisher first sends a priming packet (tag 65535, marker): when the reader has seen a unit ending with it,
+// everything older has been handed over.  While an RTP publisher is current nobody else writes, so every one of its
+// packets produces exactly one callback (nil payload or an access unit).
+
+type verifC17AH struct {
+	strm   *Stream
+	rd     *Reader
+	pubs   []*SubStream
+	cur    int // index into pubs, 0 = offline
+	seq    uint16
+	ts     uint32
+	mu     sync.Mutex
+	ev     []string // "-" = nil payload, "a+b" = tags of a delivered access unit
+	expect bool
+}
+
+var verifC17ah *verifC17AH
+
+func verifC17AHClose() {
+	a := verifC17ah
+	if a != nil {
+		a.strm.RemoveReader(a.rd)
+		a.strm.Close()
+	}
+	verifC17ah = nil
+}
+
+func (a *verifC17AH) waitEv(n int) bool {
+	dl := time.Now().Add(verifC17Timeout)
+	for {
+		a.mu.Lock()
+		k := len(a.ev)
+		a.mu.Unlock()
+		if k > n {
+			return true
+		}
+		if time.Now().After(dl) {
+			return false
+		}
+		time.Sleep(100 * time.Microsecond)
+	}
+}
+
+func (a *verifC17AH) send(p, tag int, marker bool) {
+	a.seq++
+	pkt := &rtp.Packet{
+		Header:  rtp.Header{Version: 2, PayloadType: 96, SequenceNumber: a.seq, Timestamp: a.ts, SSRC: 99, Marker: marker},
+		Payload: []byte{0x41, 0xA5, byte(tag >> 8), byte(tag)},
+	}
+	if marker {
+		a.ts += 3000 // all packets of one access unit share the timestamp
+	}
+	m := a.pubs[p].InDesc.Medias[0]
+	a.pubs[p].WriteUnit(m, m.Formats[0], &unit.Unit{PTS: int64(a.ts), RTPPackets: []*rtp.Packet{pkt}})
+}
+
+func verifC17AHExec(f []string) string {
+	if f[0] == "reset" {
+		verifC17Close()
+		verifC17AAClose()
+		verifC17AHClose()
+		a := &verifC17AH{pubs: []*SubStream{nil}, ts: 1000}
+		a.strm = &Stream{
+			AlwaysAvailable:       true,
+			AlwaysAvailableTracks: []conf.AlwaysAvailableTrack{{Codec: conf.CodecH264}},
+			WriteQueueSize:        512,
+			RTPMaxPayloadSize:     1450,
+			ReplaceNTP:            true,
+			Parent:                verifC17Log{},
+		}
+		if err := a.strm.Initialize(); err != nil {
+			return "err-init"
+		}
+		a.rd = &Reader{Parent: verifC17Log{}}
+		m := a.strm.OrigDesc.Medias[0]
+		a.rd.OnData(m, m.Formats[0], func(u *unit.Unit) error {
+			a.mu.Lock()
+			defer a.mu.Unlock()
+			if u.NilPayload() {
+				if a.expect {
+					a.ev = append(a.ev, "-")
+				}
+				return nil
+			}
+			au, _ := u.Payload.(unit.PayloadH264)
+			var tags []string
+			for _, n := range au {
+				if len(n) == 4 && n[0] == 0x41 && n[1] == 0xA5 {
+					tags = append(tags, fmt.Sprint(int(n[2])<<8|int(n[3])))
+				} else if len(tags) != 0 {
+					tags = append(tags, "x")
+				}
+			}
+			if len(tags) != 0 { // the offline clip's own frames carry no tagged NAL unit
+				a.ev = append(a.ev, strings.Join(tags, "+"))
+			}
+			return nil
+		})
+		a.strm.AddReader(a.rd)
+		verifC17ah = a
+		return "ok"
+	}
+	a := verifC17ah
+	if a == nil {
+		return "bad-op"
+	}
+	switch f[0] {
+	case "aapubr":
+		in := &format.H264{PayloadTyp: 96, PacketizationMode: 1}
+		p := &SubStream{
+			Stream:        a.strm,
+			InDesc:        &description.Session{Medias: []*description.Media{{Type: description.MediaTypeVideo, Formats: []format.Format{in}}}},
+			UseRTPPackets: true,
+		}
+		if err := p.Initialize(); err != nil {
+			return "err-subinit"
+		}
+		a.pubs = append(a.pubs, p)
+		a.cur = len(a.pubs) - 1
+		a.mu.Lock()
+		a.ev = nil
+		a.expect = false // late nil-payload units of the offline sub stream are not ours
+		a.mu.Unlock()
+		a.send(a.cur, 65535, true)
+		// wait for a unit that ends with the priming tag
+		dl := time.Now().Add(verifC17Timeout)
+		for {
+			a.mu.Lock()
+			var got []string
+			done := false
+			for _, e := range a.ev {
+				got = append(got, e)
+				if e == "65535" || strings.HasSuffix(e, "+65535") {
+					done = true
+				}
+			}
+			if done {
+				a.ev = nil
+				a.expect = true
+				a.mu.Unlock()
+				return "got=" + strings.Join(got, "|")
+			}
+			a.mu.Unlock()
+			if time.Now().After(dl) {
+				return "stuck got=" + strings.Join(got, "|")
+			}
+			time.Sleep(100 * time.Microsecond)
+		}
+	case "aaoff":
+		if a.cur == 0 {
+			return "bad-op"
+		}
+		a.mu.Lock()
+		a.expect = false
+		a.mu.Unlock()
+		a.cur = 0
+		if err := a.strm.StartOfflineSubStream(); err != nil {
+			return "err-offline"
+		}
+		return "ok"
+	case "aartp":
+		p, tag, marker := verifutil.Atoi(f[1]), verifutil.Atoi(f[2]), f[3] == "1"
+		if p < 1 || p >= len(a.pubs) {
+			return "bad-op"
+		}
+		a.mu.Lock()
+		n := len(a.ev)
+		a.mu.Unlock()
+		errBefore := a.strm.InboundFramesInError()
+		a.send(p, tag, marker)
+		if a.strm.InboundFramesInError() != errBefore {
+			return "err"
+		}
+		if p != a.cur {
+			return "got=-" // a replaced publisher: WriteUnit returns without doing anything
+		}
+		if !a.waitEv(n) {
+			return "stuck"
+		}
+		a.mu.Lock()
+		e := a.ev[n]
+		a.mu.Unlock()
+		if e == "-" {
+			return "got=-"
+		}
+		return "got=" + e
+	}
+	return "bad-op"
+}
+
 func verifC17Exec(op string) string {
 	f := strings.Fields(op)
+	if (f[0] == "reset" && len(f) > 3 && f[3] == "aah") || f[0] == "aapubr" || f[0] == "aartp" || (f[0] == "aaoff" && verifC17ah != nil) {
+		return verifC17AHExec(f)
+	}
+	if f[0] == "reset" {
+		verifC17AHClose()
+	}
 	if (f[0] == "reset" && len(f) > 3 && f[3] == "aa") || strings.HasPrefix(f[0], "aa") {
 		return verifC17AAExec(f)
 	}
@@ -514,16 +715,27 @@ func verifC17Exec(op string) string {
 		verifC17AAClose()
 		verifC17Close()
 		st := &verifC17State{cap: verifutil.Atoi(f[1]), nf: verifutil.Atoi(f[2]), events: make(chan verifC17Entry, 1024)}
-		st.share = len(f) > 3 && f[3] == "1" && st.nf >= 3
+		st.share = len(f) > 3 && (f[3] == "1" || f[3] == "2") && st.nf >= 3
+		sameMedia := st.share && f[3] == "2"
 		desc := &description.Session{}
 		for i := 0; i < st.nf; i++ {
 			forma := verifC17Format(i, st.share)
-			if st.share && i == 2 {
+			if st.share && i == 2 && !sameMedia {
 				// two medias built from ONE format instance (e.g. two tracks created from the same pointer)
 				forma = st.medias[1].Formats[0]
 			}
+			if sameMedia && i == 2 {
+				// layout 2: formats 1 and 2 are two formats of the SAME Go type inside ONE media (different
+				// payload types), each with its own readers
+				forma.(*format.VP8).PayloadTyp = 100
+				st.medias[1].Formats = append(st.medias[1].Formats, forma)
+				st.medias = append(st.medias, st.medias[1])
+				st.formats = append(st.formats, forma)
+				continue
+			}
 			m := &description.Media{Type: description.MediaTypeVideo, Formats: []format.Format{forma}}
 			st.medias = append(st.medias, m)
+			st.formats = append(st.formats, forma)
 			desc.Medias = append(desc.Medias, m)
 		}
 		st.strm = &Stream{OrigDesc: desc, WriteQueueSize: st.cap, RTPMaxPayloadSize: 1450, Parent: verifC17Log{}}
@@ -553,7 +765,7 @@ func verifC17Exec(op string) string {
 			if mask>>i&1 == 1 {
 				fi := i
 				r.subs = append(r.subs, fi)
-				r.rd.OnData(st.medias[fi], st.medias[fi].Formats[0], func(u *unit.Unit) error {
+				r.rd.OnData(st.medias[fi], st.formats[fi], func(u *unit.Unit) error {
 					st.events <- verifC17Entry{r: id, f: fi, payload: verifC17FmtPayload(u.Payload), u: u}
 					return <-r.gate
 				})
@@ -571,7 +783,7 @@ func verifC17Exec(op string) string {
 		if fi >= st.nf {
 			return "bad-op"
 		}
-		st.sub.WriteUnit(st.medias[fi], st.medias[fi].Formats[0], &unit.Unit{PTS: int64(tag) * 3000, Payload: verifC17Payload(fi, tag, st.share)})
+		st.sub.WriteUnit(st.medias[fi], st.formats[fi], &unit.Unit{PTS: int64(tag) * 3000, Payload: verifC17Payload(fi, tag, st.share)})
 		for _, r := range st.readers {
 			if !r.attached {
 				continue
@@ -703,7 +915,39 @@ func verifC17GenFill(r *verifutil.Rand) []string {
 	return append(ops, "final")
 }
 
+// RTP publishers on an always-available stream, replaced while an access unit is incomplete
+func verifC17GenAH(r *verifutil.Rand) []string {
+	ops := []string{"reset 64 1 aah"}
+	tag, cur := 1, 0
+	rounds := 2 + r.Intn(2)
+	for k := 0; k < rounds; k++ {
+		ops = append(ops, "aapubr")
+		cur++
+		n := 1 + r.Intn(5)
+		for j := 0; j < n; j++ {
+			m := 0
+			if r.Chance(1, 2) {
+				m = 1
+			}
+			if j == n-1 && r.Chance(2, 3) {
+				m = 0 // the publisher leaves in the middle of an access unit
+			}
+			ops = append(ops, fmt.Sprintf("aartp %d %d %d", cur, tag, m))
+			tag++
+		}
+		ops = append(ops, "aaoff")
+		if r.Chance(1, 3) {
+			ops = append(ops, fmt.Sprintf("aartp %d %d 1", cur, tag)) // a replaced publisher keeps writing
+			tag++
+		}
+	}
+	return ops
+}
+
 func verifC17Gen(r *verifutil.Rand, i int, thorough bool) []string {
+	if (!thorough && i%25 == 12) || (thorough && i%125 == 12) {
+		return verifC17GenAH(r)
+	}
 	if i%8 == 3 {
 		return verifC17GenFill(r)
 	}
@@ -715,7 +959,7 @@ func verifC17Gen(r *verifutil.Rand, i int, thorough bool) []string {
 	nf := 1 + r.Intn(4)
 	share := 0
 	if nf >= 3 && r.Chance(1, 2) {
-		share = 1 // formats 1 and 2 are two medias holding the same format instance
+		share = 1 + r.Intn(2) // 1: formats 1 and 2 are two medias holding the same format instance; 2: two formats of the same type in one media
 	}
 	ops := []string{fmt.Sprintf("reset %d %d %d", cap, nf, share)}
 	// weight writes towards MPEG-4 Video when present (in-band config updates, several GOV key frames)
@@ -823,6 +1067,9 @@ func verifC17Class(op, impl string) string {
 		if strings.HasSuffix(op, " 1") {
 			return "reset/shared-format"
 		}
+		if strings.HasSuffix(op, " 2") {
+			return "reset/two-formats-one-media"
+		}
 		return "reset"
 	}
 	if w == "final" {
@@ -852,6 +1099,7 @@ func verifC17Class(op, impl string) string {
 func TestVerifC17(t *testing.T) {
 	defer verifC17Close()
 	defer verifC17AAClose()
+	defer verifC17AHClose()
 	verifutil.Main(t, &verifutil.Harness{
 		ID: "C17", Exec: verifC17Exec, Gen: verifC17Gen, Quick: 400, Thorough: 6000,
 		Class:      verifC17Class,
